@@ -105,6 +105,9 @@ func main() {
 				fatal(fmt.Errorf("case %d: %w", id, err))
 			}
 			nfile++
+			if hangCount >= maxHangs {
+				break
+			}
 		}
 		if err := sc.Err(); err != nil {
 			fatal(err)
@@ -119,10 +122,16 @@ func main() {
 				fatal(err)
 			}
 			scn++
+			if hangCount >= maxHangs {
+				break
+			}
 			if err := fam.Exec(scn, raw, tr, opt); err != nil {
 				fatal(fmt.Errorf("random case %d: %w", scn, err))
 			}
 		}
+	}
+	if hangCount >= maxHangs {
+		fmt.Printf("stopped after %d evaluations that did not terminate\n", hangCount)
 	}
 	fmt.Printf("scenarios=%d from_file=%d random=%d events=%d\n", scn, nfile, scn-nfile, tr.n)
 }
